@@ -62,7 +62,9 @@ pub fn module_json(m: &GateModule) -> Value {
             };
             json!({
                 "clock": f.clock, "edge": edge(&f.clock_edge), "reset": reset,
-                "d": f.d, "q": f.q, "reset_value": f.reset_value, "origin": origin(&f.origin),
+                "d": f.d, "q": f.q, "reset_value": f.reset_value,
+                // the Q net carries the hierarchical name (`u.r`) after flattening; the FF record keeps the child's own
+                "origin": origin(&m.nets.get(f.q as usize).and_then(|n| n.origin).or(f.origin)),
             })
         })
         .collect();
